@@ -1,1 +1,80 @@
-import BigtreeModel.Basic
+import BigtreeModel.Dag
+import BigtreeProofs.Lemmas.DagIter
+import BigtreeProofs.Lemmas.DagCons
+import BigtreeProofs.Lemmas.DagExport
+import BigtreeProofs.Properties.C16
+/-! # C17 — DAG exports are complete; re-importing them reproduces the DAG
+
+Corollaries of C16 (`dag_iter_edges`: the iterator every exporter is built on yields every edge
+exactly once) and of the constructor lemma (`Tracks.setParent`: adding pairs through
+`child.parents = [parent]` stores exactly the acyclic relation and refuses the first pair that
+closes a cycle). Node names are the ids (distinct by hypothesis). -/
+
+namespace C17
+open Dag List
+
+/-! ## list format -/
+
+/-- `dag_to_list` lists every edge exactly once, as (parent, child). -/
+theorem list_export_each_edge_once {g : Dag} (wf : DWF g) (hc : g.Connected) {v : Nat}
+    (hv : v ∈ g.nodes) : (g.dagToList v).Perm g.edges :=
+  C16.dag_iter_edges_connected wf hc hv
+
+/-- **Tier 1.** `list_to_dag (dag_to_list g)` succeeds and is a well-formed DAG with the same
+    edge set and the same node names as `g` (weakly connected, at least one edge). -/
+theorem list_roundtrip {g : Dag} (wf : DWF g) (hc : g.Connected) {v : Nat} (hv : v ∈ g.nodes)
+    (hne : g.edges ≠ []) :
+    ∃ b, listToDag (g.dagToList v) = .ok b ∧ b.dag.DWF ∧
+      (∀ e, e ∈ b.dag.edges ↔ e ∈ g.edges) ∧ (∀ x, x ∈ b.dag.nodes ↔ x ∈ g.nodes) := by
+  have hperm := list_export_each_edge_once wf hc hv
+  have hrel : ∀ e, e ∈ g.dagToList v ↔ e ∈ g.edges := fun e => hperm.mem_iff
+  have hne' : g.dagToList v ≠ [] := fun h => hne (by simpa [h] using hperm.symm)
+  obtain ⟨b, hb, t, hk, _⟩ := (listToDag_spec _ hne').1
+    (relAcyclic_of_edges wf fun e he => (hrel e).1 he)
+  exact ⟨b, hb, rebuilt_of_tracks wf hc hne hrel t
+    (endsOnly_nodes wf (fun e he => (hrel e).1 he) hk)⟩
+
+theorem diamond_connected : C16.diamond.Connected := by
+  intro u hu w hw
+  have h0 : ∀ x ∈ C16.diamond.nodes, C16.diamond.UReach 0 x :=
+    C16.connected_from_of_run (by decide)
+  have h1 : ∀ x ∈ C16.diamond.nodes, C16.diamond.UReach 1 x :=
+    C16.connected_from_of_run (by decide)
+  have h2 : ∀ x ∈ C16.diamond.nodes, C16.diamond.UReach 2 x :=
+    C16.connected_from_of_run (by decide)
+  have h3 : ∀ x ∈ C16.diamond.nodes, C16.diamond.UReach 3 x :=
+    C16.connected_from_of_run (by decide)
+  have : u = 0 ∨ u = 1 ∨ u = 2 ∨ u = 3 := by
+    simpa [C16.diamond, ofEdges, List.range, List.range.loop] using hu
+  rcases this with rfl | rfl | rfl | rfl
+  · exact h0 w hw
+  · exact h1 w hw
+  · exact h2 w hw
+  · exact h3 w hw
+
+example : ∃ b, listToDag (C16.diamond.dagToList 3) = .ok b ∧ b.dag.DWF ∧
+    (∀ e, e ∈ b.dag.edges ↔ e ∈ C16.diamond.edges) ∧ (∀ x, x ∈ b.dag.nodes ↔ x ∈ C16.diamond.nodes) :=
+  list_roundtrip C16.diamond_wf diamond_connected (by decide) (by decide)
+
+/-- `list_to_dag` refuses (TreeError) every relation that contains a directed cycle … -/
+theorem list_cycle_refused (rel : List Edge) (h : ¬ RelAcyclic rel) :
+    listToDag rel = .error .tree := by
+  have hne : rel ≠ [] := by
+    rintro rfl
+    apply h
+    intro x hx
+    cases hx with
+    | edge hb => simp [relGraph, ofEdges] at hb
+    | step hb _ => simp [relGraph, ofEdges] at hb
+  exact (listToDag_spec rel hne).2 h
+
+/-- … and builds exactly the relation when it is non-empty and acyclic. -/
+theorem list_acyclic_accepted (rel : List Edge) (hne : rel ≠ []) (h : RelAcyclic rel) :
+    ∃ b, listToDag rel = .ok b ∧ b.dag.DWF ∧ (∀ e, e ∈ b.dag.edges ↔ e ∈ rel) :=
+  let ⟨b, hb, t, _, _⟩ := (listToDag_spec rel hne).1 h
+  ⟨b, hb, t.dwf h, fun _ => t.edges_iff⟩
+
+example : listToDag [(0, 1), (1, 2), (2, 0)] = .error .tree :=
+  list_cycle_refused _ (fun h => h 0 (.step (b := 1) (by decide) (.step (b := 2) (by decide) (.edge (by decide)))))
+
+end C17
